@@ -298,6 +298,19 @@ func (x *instr) walk(f *ast.File) {
 	info := x.pkg.TypesInfo
 	ast.Inspect(f, func(n ast.Node) bool {
 		switch v := n.(type) {
+		case *ast.FuncDecl:
+			// every function of the generated code starts with a pre-emption point: whatever a
+			// caller holds across the call (a slice it got back, a buffer it released) can meet
+			// another request's use of the same thing
+			if v.Body != nil && v.Name.Name != "init" {
+				x.ins = append(x.ins, insertion{off: x.off(v.Body.Lbrace) + 1, text: fmt.Sprintf(" simrt.Step(%q); ", x.site(v.Pos()))})
+				x.st.Sites++
+			}
+		case *ast.FuncLit:
+			if v.Body != nil {
+				x.ins = append(x.ins, insertion{off: x.off(v.Body.Lbrace) + 1, text: fmt.Sprintf(" simrt.Step(%q); ", x.site(v.Pos()))})
+				x.st.Sites++
+			}
 		case *ast.BlockStmt:
 			x.block(v.List)
 		case *ast.CaseClause:
@@ -336,6 +349,12 @@ func (x *instr) walk(f *ast.File) {
 				} else {
 					x.rep = append(x.rep, replacement{from: x.off(v.Pos()), to: x.off(v.End()), text: fmt.Sprintf("simrt.%s(unsafe.Pointer(%s), %s)", fn, addr, arg2)})
 				}
+				x.st.LockCalls++
+			case isSyncType(tv.Type, "Pool") && sel.Sel.Name == "Get" && len(v.Args) == 0:
+				x.rep = append(x.rep, replacement{from: x.off(v.Pos()), to: x.off(v.End()), text: "simrt.PoolGet(" + addr + ")"})
+				x.st.LockCalls++
+			case isSyncType(tv.Type, "Pool") && sel.Sel.Name == "Put" && len(v.Args) == 1:
+				x.rep = append(x.rep, replacement{from: x.off(v.Pos()), to: x.off(v.Lparen) + 1, text: "simrt.PoolPut(" + addr + ", "})
 				x.st.LockCalls++
 			case isAnySync(tv.Type):
 				x.st.Unseamed = append(x.st.Unseamed, fmt.Sprintf("unseamed sync object %s.%s at %s", tv.Type.String(), sel.Sel.Name, x.site(v.Pos())))
